@@ -21,6 +21,21 @@ theorem slice_extent (r0 r1 c0 c1 S0 S1 : Int) :
       = ⟨r0 - S0 / 2, r1 - 1 - S0 / 2, c0 - S1 / 2, c1 - 1 - S1 / 2⟩ := by
   rw [sliceOffset_closed, arrayExtent_eq]; simp only [Extent.mk.injEq]; omega
 
+/-- an extent intersected with itself: the slices address the whole array and the shift is the centre -/
+theorem self_slices (e : Extent) :
+    intersectionSlices e e = (((0, e.rmax - e.rmin + 1), (0, e.cmax - e.cmin + 1)), ((0, e.rmax - e.rmin + 1), (0, e.cmax - e.cmin + 1))) ∧
+    intersectionShift e e = (e.rmin + (e.rmax - e.rmin + 1) / 2, e.cmin + (e.cmax - e.cmin + 1) / 2) := by
+  rw [intersectionSlices_eq, intersectionShift_eq]
+  have h1 : max e.rmin e.rmin = e.rmin := by omega
+  have h2 : min e.rmax e.rmax = e.rmax := by omega
+  have h3 : max e.cmin e.cmin = e.cmin := by omega
+  have h4 : min e.cmax e.cmax = e.cmax := by omega
+  rw [h1, h2, h3, h4]
+  refine ⟨?_, rfl⟩
+  have a : e.rmin - e.rmin = 0 := by omega
+  have b : e.cmin - e.cmin = 0 := by omega
+  rw [a, b]
+
 theorem intersectionShape_pos (a b : Extent) (p : Int × Int) (h : intersectionShape a b = some p) : 0 < p.1 ∧ 0 < p.2 := by
   rw [intersectionShape_eq] at h
   generalize min a.rmax b.rmax - max a.rmin b.rmin + 1 = nr at h
